@@ -649,8 +649,9 @@ def poolLine (sz al s : Nat) (isPA : Bool) (ops : String) : String :=
       " released=" ++ toString d.length
   | _, _ => "bad-op"
 
-/-- malloc/aligned histories: state = list of live block sizes; `a<n>` / `f<k>` -/
-def rawOps (alloc : Nat → Bool) : List Nat → List String → Option (List String)
+/-- malloc/aligned histories: state = list of live block sizes; `a<n>` / `f<k>`; `r<n>` = allocate(n) through the
+    allocator rebound to an element type of twice the size (`allocR`) -/
+def rawOps (alloc allocR : Nat → Bool) : List Nat → List String → Option (List String)
   | _, [] => some []
   | live, o :: os =>
     match o.toList with
@@ -658,13 +659,19 @@ def rawOps (alloc : Nat → Bool) : List Nat → List String → Option (List St
       | none => none
       | some n =>
         if n ≥ 2 ^ 64 then none else
-        if alloc n then (rawOps alloc (live ++ [n]) os).map ("ok" :: ·)
-        else (rawOps alloc live os).map ("ERR:Alloc" :: ·)
+        if alloc n then (rawOps alloc allocR (live ++ [n]) os).map ("ok" :: ·)
+        else (rawOps alloc allocR live os).map ("ERR:Alloc" :: ·)
+    | 'r' :: ds => match (String.ofList ds).toNat? with
+      | none => none
+      | some n =>
+        if n ≥ 2 ^ 64 then none else
+        if allocR n then (rawOps alloc allocR (live ++ [n]) os).map ("ok" :: ·)
+        else (rawOps alloc allocR live os).map ("ERR:Alloc" :: ·)
     | 'f' :: ds => match (String.ofList ds).toNat? with
       | none => none
       | some k =>
-        if k < live.length then (rawOps alloc (live.eraseIdx k) os).map ("ok" :: ·)
-        else (rawOps alloc live os).map ("-" :: ·)
+        if k < live.length then (rawOps alloc allocR (live.eraseIdx k) os).map ("ok" :: ·)
+        else (rawOps alloc allocR live os).map ("-" :: ·)
     | _ => none
 
 /-- `h<n>` (allocate with a hint) and `c<n>` (allocate through a copy of the allocator) are `a<n>`; `g<k>` / `G<k>`
@@ -679,12 +686,15 @@ def normRaw (ops : List String) : List String :=
     | _ => o
 
 def mallocLine (sz al : Nat) (ops : String) : String :=
-  match rawOps (fun n => match mallocAllocate sz al n osServes with | .ok _ => true | .error _ => false) [] (normRaw (splitOps ops)) with
+  match rawOps (fun n => match mallocAllocate sz al n osServes with | .ok _ => true | .error _ => false)
+      (fun n => match mallocAllocate (2 * sz) al n osServes with | .ok _ => true | .error _ => false) []
+      (normRaw (splitOps ops)) with
   | none => "bad-op"
   | some outs => "max=" ++ toString (mallocMaxSize sz) ++ " : " ++ ";".intercalate outs
 
 def alignedLine (sz al A : Nat) (ops : String) : String :=
-  match rawOps (fun n => match alignedAllocate sz al A n osServes with | .ok _ => true | .error _ => false) []
+  match rawOps (fun n => match alignedAllocate sz al A n osServes with | .ok _ => true | .error _ => false)
+      (fun n => match alignedAllocate (2 * sz) al A n osServes with | .ok _ => true | .error _ => false) []
       (normRaw (splitOps ops)) with
   | none => "bad-op"
   | some outs => "max=" ++ toString (mallocMaxSize sz) ++ " align=" ++ toString (alignedAlignment al A) ++ " : " ++
@@ -709,6 +719,16 @@ def dbgOps (sz page : Nat) : Nat → List AInfo → List String → Option (List
         if n ≥ 2 ^ 64 then none else
         let mm := if osServes (dbgMapLen (dbgCapacity sz n) page) then some brk else none
         match dbgAllocate sz page n (fun _ => mm) l, dbgStep sz page l (.alloc n mm) with
+        | .ok (ai, _), some st =>
+          (dbgOps sz page (brk + ai.pages * page + page) st.1 os).map fun r => ("ok" :: r.1, st.2 ++ r.2)
+        | _, _ => (dbgOps sz page brk l os).map fun r => ("ERR:Alloc" :: r.1, r.2)
+    | 'r' :: ds => match (String.ofList ds).toNat? with
+      | none => none
+      | some n =>
+        -- the rebound allocator: the same manager, element size 2*sz
+        if n ≥ 2 ^ 64 then none else
+        let mm := if osServes (dbgMapLen (dbgCapacity (2 * sz) n) page) then some brk else none
+        match dbgAllocate (2 * sz) page n (fun _ => mm) l, dbgStep (2 * sz) page l (.alloc n mm) with
         | .ok (ai, _), some st =>
           (dbgOps sz page (brk + ai.pages * page + page) st.1 os).map fun r => ("ok" :: r.1, st.2 ++ r.2)
         | _, _ => (dbgOps sz page brk l os).map fun r => ("ERR:Alloc" :: r.1, r.2)
@@ -745,6 +765,16 @@ def kOps (sz page : Nat) : Nat → List KInfo → List AInfo → List String →
         if n ≥ 2 ^ 64 then none else
         let mm := if osServes (dbgMapLen (dbgCapacity sz n) page) then some brk else none
         match kAllocate sz page n (fun _ => mm) l, kStep sz page l (.alloc n mm) with
+        | .ok (ai, _), some st =>
+          (kOps sz page (brk + ai.pages * page + page) st.1 (live ++ [ai]) os).map fun r => ("ok" :: r.1, st.2 ++ r.2.1, r.2.2)
+        | _, _ => (kOps sz page brk l live os).map fun r => ("ERR:Alloc" :: r.1, r.2)
+    | 'r' :: ds => match (String.ofList ds).toNat? with
+      | none => none
+      | some n =>
+        -- blocks of a second element type (size 2*sz) in the same manager
+        if n ≥ 2 ^ 64 then none else
+        let mm := if osServes (dbgMapLen (dbgCapacity (2 * sz) n) page) then some brk else none
+        match kAllocate (2 * sz) page n (fun _ => mm) l, kStep (2 * sz) page l (.alloc n mm) with
         | .ok (ai, _), some st =>
           (kOps sz page (brk + ai.pages * page + page) st.1 (live ++ [ai]) os).map fun r => ("ok" :: r.1, st.2 ++ r.2.1, r.2.2)
         | _, _ => (kOps sz page brk l live os).map fun r => ("ERR:Alloc" :: r.1, r.2)
